@@ -10,7 +10,7 @@ from ..harness import jsonable
 
 
 def case_name(c):
-    return f"index restoration of selected rows/RangeIndex(symbolic start, step)/N={c['N']},positions={c['L']}/value columns={c['ncols']}"
+    return f"index restoration of selected rows/RangeIndex(symbolic start, step)/N={c['N']},positions={c['L']}{' as a ' + 'x'.join(map(str, c['shape'])) + ' matrix' if c.get('shape') else ''}/value columns={c['ncols']}"
 
 
 def build(case, inp):
@@ -22,6 +22,12 @@ def build(case, inp):
     for i in range(L):
         for j in range(i + 1, L):
             inp.pre.append(z3.Or(p[i] == -1, p[i] != p[j]))          # the kernels never return a row twice
+    if case.get("shape"):
+        ncol = case["shape"][1]
+        for i in range(L - 1):
+            if i // ncol == (i + 1) // ncol:
+                # a row of head(): ascending positions first, then -1 padding
+                inp.pre.append(z3.Or(p[i + 1] == -1, z3.And(p[i] != -1, p[i] < p[i + 1])))
     cols = [inp.floats(f"v{c}_", N, nullable=False) for c in range(case["ncols"])]
     return {"start": start, "step": step, "p": p, "cols": cols}
 
@@ -35,7 +41,8 @@ def call(E, case, d):
     sers = [FakeSeries(A(c, "float64").tag("input:values"), idx, name=f"c{j}") for j, c in enumerate(d["cols"])]
     values = sers[0] if len(sers) == 1 else {s.name: s for s in sers}
     real = type(gb)._real_get_row_selection
-    return real(gb, values, A(list(d["p"]), "int64"), True, None)
+    shape = tuple(case["shape"]) if case.get("shape") else (case["L"],)          # head/tail hand over a (groups, n) matrix, nth a vector
+    return real(gb, values, A(list(d["p"]), "int64", shape), True, None)
 
 
 def _gather(cells, p, N):
@@ -68,14 +75,29 @@ def bads(case, d, out):
         return [(f"the result carries no label per row ({type(idx).__name__})", True)]
     if len(labs) != m:
         return [("index length differs from the number of rows", True)]
+    # the order ACROSS groups is not part of the property (a sorting grouper re-orders by label anyway): every kept position comes back
+    # exactly once with its label and values; positions of one group (one row of the matrix) keep their relative order
+    want = [d["start"] + d["step"] * p[i] for i in range(L)]
+    for j in range(m):
+        for j2 in range(j + 1, m):
+            bl.append((f"rows {j},{j2}: a position is returned once (labels differ)", labs[j] == labs[j2]))
     for i in range(L):
-        rank = total([ite(kept[i2], 1, 0) for i2 in range(i)], 0)
+        found = []
         for j in range(m):
-            here = b_and(kept[i], rank == j)
-            bl.append((f"row {j}: label of the selected position == start + step * position", b_and(here, b_not(labs[j] == d["start"] + d["step"] * p[i]))))
-            for c, s in enumerate(series):
-                bl.append((f"row {j}, column {c}: value of the selected position unmodified",
-                           b_and(here, b_not(same(SF.of(s.arr.cells[j]), SF.of(_gather(d["cols"][c], p[i], N)))))))
+            ok = labs[j] == want[i]
+            for c, s_ in enumerate(series):
+                ok = b_and(ok, same(SF.of(s_.arr.cells[j]), SF.of(_gather(d["cols"][c], p[i], N))))
+            found.append(ok)
+        bl.append((f"selected position {i}: returned with its own label (start + step * position) and unmodified values", b_and(kept[i], b_not(b_or(*found)))))
+    ncol = case["shape"][1] if case.get("shape") else 1
+    for i in range(L):
+        for i2 in range(i + 1, L):
+            if i // ncol != i2 // ncol:
+                continue
+            for j in range(m):
+                for j2 in range(0, j + 1):
+                    bl.append((f"positions {i},{i2} of one group keep their relative order",
+                               b_and(kept[i], kept[i2], labs[j] == want[i], labs[j2] == want[i2])))
     return bl
 
 
@@ -87,8 +109,11 @@ def replay(case, conc, cand=None):
     """public route: a categorical key built so that nth(0) selects exactly the positions of the counterexample"""
     import pandas as pd
     from groupby_lib import GroupBy
+    if case.get("shape"):
+        return replay_matrix(case, conc)
     N, L = case["N"], case["L"]
     p = [int(x) for x in conc["p"]]
+
     def _scalar(x):
         return int(x[0] if isinstance(x, (list, tuple)) else x)
     start, step = _scalar(conc["start"]), _scalar(conc["step"])
@@ -110,3 +135,42 @@ def replay(case, conc, cand=None):
     exp = sorted((start + step * q, tuple(float(conc[f"v{c}_"][q]) for c in range(case["ncols"]))) for q in exp_pos)
     bad = got != exp
     return bad, {"returned (label, values)": got, "expected": exp, "positions": p, "start": start, "step": step}
+
+
+def replay_matrix(case, conc):
+    """head(n) on a key whose group g holds exactly the kept positions of row g (ascending, as the kernels produce them)"""
+    import pandas as pd
+    from groupby_lib import GroupBy
+    N, L = case["N"], case["L"]
+    G, n = case["shape"]
+    p = [int(x) for x in conc["p"]]
+
+    def _scalar(x):
+        return int(x[0] if isinstance(x, (list, tuple)) else x)
+    start, step = _scalar(conc["start"]), _scalar(conc["step"])
+    rows = [[q for q in p[g * n:(g + 1) * n] if q >= 0] for g in range(G)]
+    codes = [-1] * N
+    for g, r in enumerate(rows):
+        for q in r:
+            codes[q] = g
+    key = pd.Categorical.from_codes(codes, categories=list(range(G)))
+    idx = pd.RangeIndex(start, start + step * N, step)
+    cols = {f"c{c}": pd.Series([float(x) for x in conc[f"v{c}_"]], index=idx, name=f"c{c}") for c in range(case["ncols"])}
+    values = cols["c0"] if case["ncols"] == 1 else pd.DataFrame(cols)
+    try:
+        out = GroupBy(key).head(values, n, keep_input_index=True)
+    except Exception as e:      # noqa: BLE001
+        return True, f"real call raised {type(e).__name__}: {e}"
+    frame = out.to_frame() if isinstance(out, pd.Series) else out
+    got = [(int(lab), tuple(float(x) for x in row)) for lab, row in zip(frame.index, frame.to_numpy())]
+    exp = [(start + step * q, tuple(float(conc[f"v{c}_"][q]) for c in range(case["ncols"]))) for r in rows for q in r]
+    problems = []
+    if sorted(got) != sorted(exp):
+        problems.append("the returned (label, values) rows are not the selected ones")
+    else:
+        labs = [g_[0] for g_ in got]
+        for r in rows:
+            seq = [labs.index(start + step * q) for q in r]
+            if seq != sorted(seq):
+                problems.append("rows of one group are not in their original relative order")
+    return bool(problems), {"problems": problems, "returned": got, "expected (any order across groups)": exp, "positions": p, "start": start, "step": step}
